@@ -42,6 +42,15 @@ def make_graph(rng, n, kind):
             for b in range(a + 1, n):
                 if rng.random() < q:
                     G.add_edge(order[a], order[b])
+    elif kind == "sparse_directed":          # ~3 random out-edges per node (density about 3/n), plus a hub with many in-edges
+        for u in range(n):
+            for v in rng.choice(n, size=min(3, n), replace=False):
+                if int(v) != u:
+                    G.add_edge(u, int(v))
+        hub = int(rng.integers(0, n))
+        for u in rng.choice(n, size=min(n, 12), replace=False):
+            if int(u) != hub:
+                G.add_edge(int(u), hub)
     elif kind == "chain":
         order = [int(x) for x in rng.permutation(n)]
         for a in range(n - 1):
@@ -435,6 +444,10 @@ def run(chk):
         confs.append(dict(rho=float(rng.uniform(0.3, 0.95)), n=int(rng.integers(1, 5)), T=4000, p=float(rng.choice([0.3, 0.6, 1.0])),
                           epsilon=float(10 ** rng.uniform(-2, 1)), seed=int(rng.integers(0, 2 ** 31)),
                           kind=str(rng.choice(["erdos_renyi", "cycle", "selfloops", "dag"])), eps2=1.0, regress=True))
+    # long records: the recursion must be the seed's innovations for EVERY row, also beyond any internal block size
+    for Tlong in ([16389] if quick else [8193, 16389, 32771, 20000]):
+        confs.append(dict(rho=float(rng.uniform(0.3, 0.9)), n=int(rng.integers(2, 4)), T=Tlong, p=1.0, epsilon=float(10 ** rng.uniform(-1, 0.5)),
+                          seed=int(rng.integers(0, 2 ** 31)), kind=str(rng.choice(["erdos_renyi", "cycle"])), eps2=1.0, history="none"))
     cases, pf, desc = [], [], []
     for c in confs:
         n, T = c["n"], c["T"]
@@ -533,6 +546,11 @@ def run(chk):
         pconfs.append(dict(n=int(rng.integers(1, 5)), T=400, p=0.0, lambda_base=float(rng.choice([2.0, 0.5, 5.0])),
                            coupling_strength=float(rng.choice([2.0, 1.5, 3.0])), seed=int(rng.integers(0, 2 ** 31)),
                            kind=str(rng.choice(["pure_cycle", "multi_scc", "cycle"])), history="none", long_run=True))
+    # large sparse DIRECTED networks (sparse / edge-list code paths): in-neighbours and out-neighbours differ
+    for nbig in ([100] if quick else [64, 80, 100, 128, 150]):
+        pconfs.append(dict(n=nbig, T=int(rng.integers(5, 9)), p=0.0, lambda_base=float(rng.choice([1.0, 2.0])),
+                           coupling_strength=float(rng.choice([0.5, 0.25])), seed=int(rng.integers(0, 2 ** 31)),
+                           kind="sparse_directed", history="none"))
     runs = []
     for c in pconfs:
         n = c["n"]
